@@ -64,6 +64,11 @@ def evalSpline (f : Fit1) (q : ℚ) : ℚ :=
 /-- `PSplines.predict(x)` in 1-D (target tree). -/
 def predict (f : Fit1) (Q : List ℚ) : List ℚ := Q.map (evalSpline f)
 
+/-- `y_hat = basis.T @ beta_hat` of `_fit_one_dimensional`: the fitted curve at the
+sampling points `x` (the basis built on the fit domain). -/
+def fittedValues (f : Fit1) (x : List ℚ) : List ℚ :=
+  x.map fun t => ∑ j ∈ range (nFun f.nseg f.deg), bspline f.dmin f.dmax f.nseg f.deg j t * f.beta j
+
 /-- `PSplines.predict` of the pristine tree: the basis is rebuilt on the range of the
 query points (`np.min(argvals)`, `np.max(argvals)`). -/
 def predictRebuilt (f : Fit1) (Q : List ℚ) : List ℚ :=
